@@ -241,14 +241,14 @@ class PatchedSumWeights(BinwisePatchwiseArray):
 
     def _make_bin_slice(self, item: TypeSliceIndex) -> PatchedSumWeights:
         binning = self.binning[item]
-        if isinstance(item, int):
+        if isinstance(item, (int, np.integer)):
             item = [item]
         return type(self)(
             binning, self.sum_weights1[item], self.sum_weights2[item], auto=self.auto
         )
 
     def _make_patch_slice(self, item: TypeSliceIndex) -> PatchedSumWeights:
-        if isinstance(item, int):
+        if isinstance(item, (int, np.integer)):
             item = [item]
         return type(self)(
             self.binning,
@@ -433,13 +433,13 @@ class PatchedCounts(BinwisePatchwiseArray):
 
     def _make_bin_slice(self, item: TypeSliceIndex) -> PatchedCounts:
         binning = self.binning[item]
-        if isinstance(item, int):
+        if isinstance(item, (int, np.integer)):
             item = [item]
 
         return type(self)(binning, self.counts[item], auto=self.auto)
 
     def _make_patch_slice(self, item: TypeSliceIndex) -> PatchedCounts:
-        if isinstance(item, int):
+        if isinstance(item, (int, np.integer)):
             item = [item]
 
         return type(self)(
